@@ -292,6 +292,12 @@ def main():
     hres = core.pmap(replay_history, hjobs, chunksize=8)
     hcases = [c for cs in hres for c in cs]
     cases = dcases + hcases
+    nsuite = 0
+    if tr == "thorough":          # hook events of every pipeflow call of the repository's own test-suite
+        from . import suite
+        sc = suite.solver_cases()
+        nsuite = len(sc)
+        cases = cases + sc
     by_id = {c["id"]: c for c in cases}
     res, fails = validate(cases)
     cc = collections.Counter()
@@ -313,7 +319,7 @@ def main():
            "driver_behaviours_replayed": len(dcases), "call_histories_replayed": len(hjobs),
            "pipeflow_calls_validated": len(hcases),
            "outcome_vs_model_expectation": {"%s|%s" % k: v for k, v in outc.items()},
-           "conformance_notes": dict(notes), "failing_clause_counts": dict(cc),
+           "conformance_notes": dict(notes), "repository_suite_calls_validated": nsuite, "failing_clause_counts": dict(cc),
            "trace_spec_states": res.distinct,
            "evaluations": len(cases), "distinct_nontrivial": sum(1 for c in hcases if c["outcome"] != "returned"),
            "rule": "driver behaviours: all observation sequences of the bounded driver model; call histories: all MC_Hist "
